@@ -225,6 +225,7 @@ func errUsed(call ssa.Value, idx int, multi bool) (bool, string) {
 
 func runC18(c *report.Ctx) {
 	p := c.P
+	ruleKeystoreMemoryChangesLast(c)
 	ifm, srcs := storageSources(p)
 	c.Rule("storage-error-used", "no error of the storage layer (db interface methods, Update/View, and module wrappers that return such an error) is discarded", 200)
 	c.Extra["storage_error_sources"] = len(srcs) + len(ifm)
